@@ -131,7 +131,10 @@ def do_run(cfg, resume_from=None, fail_at=None, budget_s=60, vid0=0, keep_payloa
         elif kind == "emcee_smc":
             r.result = sampler.sample(N, sampler_kwargs={"nsteps": cfg["mcmc_steps"], "progress": False}, **sk)
         else:
-            r.result = sampler.sample(N, rng=rng, sampler_kwargs={"n_steps": cfg["mcmc_steps"]}, **sk)
+            skw = {"n_steps": cfg["mcmc_steps"]}
+            if cfg.get("n_final_steps"):          # kernel steps of the final enlargement stage (popped from sampler_kwargs by sample())
+                skw["n_final_steps"] = cfg["n_final_steps"]
+            r.result = sampler.sample(N, rng=rng, sampler_kwargs=skw, **sk)
     except Watchdog as e:
         r.error = ("watchdog", str(e))
     except Exception as e:
